@@ -1457,3 +1457,40 @@ func lemmaC13_max_payload_AS923_4(rep bool, dt lorawan.DwellTime, ver, rev strin
 	}
 	_ = p
 }
+
+// ---------------------------------------------------------------------------
+// C15 (bounded: histories of 4 AddChannel calls with arbitrary arguments on a fresh band)
+// the CFList holds exactly the first five added channels that use the band's CFList data-rate
+// range, in order, and is absent when there is none.
+// ---------------------------------------------------------------------------
+func lemmaC15_cflist_channels_EU868(f [4]uint32, lo, hi [4]int) {
+	bi, _ := newEU863Band(false)
+	b := bi.(*eu863Band)
+	b.AddChannel(f[0], lo[0], hi[0])
+	b.AddChannel(f[1], lo[1], hi[1])
+	b.AddChannel(f[2], lo[2], hi[2])
+	b.AddChannel(f[3], lo[3], hi[3])
+	var want [5]uint32
+	w := 0
+	for k := 0; k < 4; k++ {
+		if lo[k] == 0 && hi[k] == 5 {
+			want[w] = f[k]
+			w++
+		}
+	}
+	cf := b.GetCFList(LoRaWAN_1_0_2)
+	if want[0] == 0 {
+		verifAssert(cf == nil, "absent")
+		return
+	}
+	verifAssert(cf != nil, "present")
+	if cf == nil {
+		return
+	}
+	verifAssert(cf.CFListType == lorawan.CFListChannel, "type")
+	pl, ok := cf.Payload.(*lorawan.CFListChannelPayload)
+	verifAssert(ok, "payload-type")
+	if ok {
+		verifAssert(pl.Channels == want, "channels")
+	}
+}
